@@ -486,8 +486,11 @@ theorem readInt_bad (bound : Int) (j : Json) (h : readInt bound j = none) : toIn
 
 open HL.SettingsSpec in
 theorem agree_refl (l : Leaf) (v : Val) : agree l v v = true := by
-  unfold agree
-  split <;> simp
+  simp [agree]
+
+open HL.SettingsSpec in
+theorem agree_iff (l : Leaf) (a b : Val) : agree l a b = true ↔ a = b := by
+  simp [agree]
 
 theorem wrap64_small (x : Int) (h1 : -9223372036854775808 ≤ x) (h2 : x < 9223372036854775808) :
     wrap64 x = x := by
@@ -525,10 +528,9 @@ theorem read_vs_coerce (l : Leaf) (j : Json) :
     | str s =>
       refine ⟨.s s, rfl, ?_⟩
       rw [normLeaf_eq]
-      simp only [ruleOf, NormCond.holds]
       by_cases hs : s = ""
-      · simp [hs, agree]
-      · simp [hs, agree]
+      · simp [hs, agree, normVal, HL.Settings.get, defaults]
+      · simp [hs, agree, normVal]
     | null => rfl
     | bool _ => rfl
     | num _ _ => rfl
@@ -551,7 +553,7 @@ theorem read_vs_coerce (l : Leaf) (j : Json) :
             simp only [Option.map_some, millisecond]
             rw [wrap64_small _ (by omega) (by omega)]
           · rw [normLeaf_eq]
-            simp only [ruleOf, NormCond.holds, validCount]
+            simp only [validCount, maxOf, normVal, HL.Settings.get, defaults, millisecond]
             by_cases hv : v * 1000000 ≤ 0
             · simp [hv, agree]
             · simp [hv, agree]
@@ -566,11 +568,11 @@ theorem read_vs_coerce (l : Leaf) (j : Json) :
         | some v =>
           obtain ⟨hi, _, _⟩ := readInt_good _ v j (by unfold two63; omega) hr
           refine ⟨.i v, by rw [hc, hi]; rfl, ?_⟩
-          rw [normLeaf_eq]
+          rw [normLeaf_eq, agree_iff]
           unfold validCount
-          by_cases hv : v ≤ 0
-          · cases l <;> first | (exact absurd rfl ht) | (exact absurd hk (by decide)) | (simp [ruleOf, NormCond.holds, hv, agree, HL.Settings.get, defaults]; try omega)
-          · cases l <;> first | (exact absurd rfl ht) | (exact absurd hk (by decide)) | (simp [ruleOf, NormCond.holds, hv, agree]; try omega)
+          cases l <;> first | (exact absurd rfl ht) | (exact absurd hk (by decide)) |
+            (simp only [maxOf, normVal, HL.Settings.get, defaults, defaultLimits]
+             (repeat' split) <;> first | rfl | (exfalso; omega) | (simp only [Val.i.injEq]; omega))
 
 
 /-! ### the two key tables -/
@@ -694,75 +696,6 @@ theorem candidate_of_mention (l : Leaf) (m : List (String × Json)) (c : Class)
     simp [entryRaw, getKey, hv]
 
 
-/-! ### the wrapper chain: what the rule looks at, what the code reads -/
-
-open HL.SettingsSpec in
-mutual
-theorem chain_json : ∀ j : Json,
-    (deadEnd j = true → target j = none) ∧
-    (deadEnd j = false → levels j ≠ [] ∧ target j = (levels j).getLast?)
-  | .obj kvs => by
-    have h := chain_members kvs
-    unfold deadEnd levels target
-    cases ht : targetIn kvs with
-    | none =>
-      rw [ht] at h
-      obtain ⟨hd, hl⟩ := h
-      refine ⟨fun hh => (by rw [hd] at hh; cases hh), fun _ => ⟨by simp, ?_⟩⟩
-      simp [hl]
-    | some t =>
-      rw [ht] at h
-      obtain ⟨h1, h2⟩ := h
-      refine ⟨fun hh => h1 hh, fun hh => ⟨by simp, ?_⟩⟩
-      obtain ⟨hne, htl⟩ := h2 hh
-      simp only [htl]
-      cases hl : levelsIn kvs with
-      | nil => exact absurd hl hne
-      | cons a r => simp [List.getLast?_cons_cons]
-  | .null => by simp [deadEnd, target]
-  | .bool _ => by simp [deadEnd, target]
-  | .num _ _ => by simp [deadEnd, target]
-  | .str _ => by simp [deadEnd, target]
-  | .arr _ => by simp [deadEnd, target]
-theorem chain_members : ∀ kvs : List (String × Json),
-    match targetIn kvs with
-    | none => deadEndIn kvs = false ∧ levelsIn kvs = []
-    | some t => (deadEndIn kvs = true → t = none) ∧
-        (deadEndIn kvs = false → levelsIn kvs ≠ [] ∧ t = (levelsIn kvs).getLast?)
-  | [] => by simp [targetIn, deadEndIn, levelsIn]
-  | (k, v) :: r => by
-    unfold targetIn deadEndIn levelsIn
-    by_cases hk : k = "hledger"
-    · simp only [hk, if_true]
-      exact chain_json v
-    · simp only [hk, if_false]
-      exact chain_members r
-end
-
-open HL.SettingsSpec in
-theorem innermost_eq (j : Json) :
-    innermost j = match target j with | some m => [m] | none => [] := by
-  unfold innermost
-  obtain ⟨h1, h2⟩ := chain_json j
-  cases hd : deadEnd j with
-  | true => simp [h1 hd]
-  | false =>
-    obtain ⟨_, ht⟩ := h2 hd
-    simp only [Bool.false_eq_true, if_false, ← ht]
-    cases target j <;> rfl
-
-open HL.SettingsSpec in
-theorem levels_split (j : Json) : levels j = shadowed j ++ innermost j := by
-  unfold shadowed innermost
-  obtain ⟨_, h2⟩ := chain_json j
-  cases hd : deadEnd j with
-  | true => simp
-  | false =>
-    obtain ⟨hne, _⟩ := h2 hd
-    simp only [Bool.false_eq_true, if_false]
-    rw [List.getLast?_eq_some_getLast hne]
-    exact (List.dropLast_concat_getLast hne).symm
-
 /-! ### good values -/
 
 open HL.SettingsSpec in
@@ -782,25 +715,5 @@ theorem goods_append (a b : List Class) : goods (a ++ b) = goods a ++ goods b :=
   | cons c a ih => cases c <;> simp [goods, ih]
 
 theorem leaf_mem_all (l : Leaf) : l ∈ Leaf.all := by cases l <;> decide
-
-open HL.SettingsSpec in
-/-- nothing recognised and well-typed sits in the objects the code skips -/
-theorem goods_shadowed (j : Json) (l : Leaf) (h : wrapperShadows j = false) :
-    goods (mentions l (shadowed j)) = [] := by
-  unfold wrapperShadows at h
-  have hall : ∀ kvs ∈ shadowed j, goods (mentionsIn l kvs) = [] := by
-    intro kvs hk
-    have h1 := List.any_eq_false.mp h kvs hk
-    simp only [List.any_eq_true, decide_eq_true_eq, not_exists, not_and] at h1
-    have h2 := h1 l (leaf_mem_all l)
-    simpa using h2
-  unfold mentions
-  generalize shadowed j = sh at hall
-  induction sh with
-  | nil => rfl
-  | cons a r ih =>
-    simp only [List.flatMap_cons, goods_append]
-    rw [hall a (List.mem_cons_self ..), ih (fun k hk => hall k (List.mem_cons_of_mem _ hk))]
-    rfl
 
 end HL.Lemmas.SettingsSpec
